@@ -81,7 +81,7 @@ struct G {
 
     std::string ascii_pw() { std::string s; int n = 8 + (int)rng.below(24); for (int i = 0; i < n; ++i) s += (char)(33 + rng.below(94)); return s; }
     std::string password() {
-        switch (rng.below(8)) {
+        switch (rng.below(9)) {
         case 0: return "";
         case 1: return "a";
         case 2: { std::string s = ascii_pw(); s += "\xC3\xA9"; s += ascii_pw(); return s; }                   // composed e-acute in the middle
@@ -89,6 +89,11 @@ struct G {
         case 4: { std::string s = "\xEF\xBC\xA1\xE3\x8E\x8F"; s += ascii_pw(); return s; }                    // compatibility characters
         case 5: { std::string s; int n = 300 + (int)rng.below(STRSZ - 1 - 300); for (int i = 0; i < n; ++i) s += (char)(97 + rng.below(26)); return s; }
         case 6: { std::string s = "\xED\x95\x9C\xEA\xB8\x80"; s += ascii_pw(); s += "\xC3\xB1"; return s; } // Hangul + n-tilde
+        case 7: {   // code points that are easy to mistreat: byte order mark, zero-width joiner, no-break space, soft hyphen, a leading combining mark
+            static const char* sp[] = {"\xEF\xBB\xBF", "\xE2\x80\x8D", "\xC2\xA0", "\xC2\xAD", "\xCC\x81", "\xEF\xBF\xBD", "\xF0\x9F\x94\x91"};
+            std::string a = ascii_pw();
+            switch (rng.below(3)) { case 0: return std::string(sp[rng.below(7)]) + a; case 1: return a + sp[rng.below(7)]; default: return std::string(sp[rng.below(7)]); }
+        }
         default: return ascii_pw();
         }
     }
@@ -136,7 +141,7 @@ struct G {
         std::vector<std::string> w;
         for (int i = 0; i < 16; ++i) w.push_back(L.words[idx[i]]);
         std::string sep = " ";
-        switch (how % 11) {
+        switch (how % 13) {
         case 0: w[rng.below(16)] = L.words[rng.below(2048)]; break;                                   // another word of the list
         case 1: { int lj = (int)rng.below(model::langs.size()); w[rng.below(16)] = model::langs[lj].words[rng.below(2048)]; break; }   // foreign word
         case 2: { size_t i = rng.below(16); auto cp = split_cp(w[i]); std::string t; for (size_t k = 0; k < 3 && k < cp.size(); ++k) t += cp[k]; w[i] = t; break; }  // too short
@@ -147,6 +152,8 @@ struct G {
         case 7: w[0] = " " + w[0]; break;                                                                  // leading space
         case 8: { size_t a = rng.below(16), b = rng.below(16); std::swap(w[a], w[b]); break; }             // transposition
         case 9: w[15] += "  "; break;                                                                      // two trailing spaces
+        case 11: { w.erase(w.begin() + rng.below(16)); size_t i = rng.below(14); w[i] += " "; break; }       // a missing word made up for by an empty one (16 tokens)
+        case 12: { w.erase(w.begin() + rng.below(16)); w[0] = " " + w[0]; break; }                       // the same with a leading space
         case 10: { std::string tail; int n = 40 + (int)rng.below(60); for (int i = 0; i < n; ++i) tail += (i % 7 == 0) ? " " : "\xE3\x81\x82"; w[15] += tail; break; }   // a long pasted note after the phrase (over-long once decomposed)
         }
         std::string r;
@@ -172,7 +179,12 @@ struct G {
     }
 
     // ---- operations with model tracking
-    void config(int fill, int kdfm, int fulllen = 0) { Op& o = emit(OP_CONFIG, 0, 0); o.a = (u64)fill | ((u64)kdfm << 8) | ((u64)fulllen << 9); o.b = rng.next() >> 1; kdf_mode = kdfm; }
+    void config(int fill, int kdfm, int fulllen = 0) {
+        Op& o = emit(OP_CONFIG, 0, 0);
+        // swarm over environment knobs: block alignment (8 mod 16), LIFO address reuse, time zone of the process
+        u64 knobs = (rng.chance(1, 4) ? 1ull << 10 : 0) | (rng.chance(1, 3) ? 1ull << 11 : 0) | ((rng.chance(1, 3) ? rng.below(4) : 0) << 12);
+        o.a = (u64)fill | ((u64)kdfm << 8) | ((u64)fulllen << 9) | knobs; o.b = rng.next() >> 1; kdf_mode = kdfm;
+    }
     void inject(int gen, unsigned opt) { Op& o = emit(OP_INJECT, 0, 0); o.a = gen; o.b = opt; }
     void enable(int task, u64 m) { Op& o = emit(OP_ENABLE, task, 0); o.a = m; mask = (unsigned)m & 7; }
     void create(int t, int s, u64 features, int skind, std::vector<u64> clock) {
@@ -260,7 +272,7 @@ static void walk(G& g, int nops, const Weights& w, bool allow_reinject) {
                 case 0: p = g.junk_phrase(); break;
                 case 1: p = g.valid_phrase(sd, li, coin, 0); coin = (coin + 1 + (unsigned)g.rng.below(2047)) & 2047; break;      // wrong coin
                 case 2: { p = g.valid_phrase(sd, li, coin, 0); int lj = g.pick_lang(); g.decode(t, fs, p, coin, lj); continue; } // explicit decoding in another language
-                default: p = g.broken_phrase(sd, li, coin, (int)g.rng.below(11));
+                default: p = g.broken_phrase(sd, li, coin, (int)g.rng.below(13));
                 }
                 g.decode(t, fs, p, coin, g.rng.chance(1, 2) ? -1 : li);
             }
@@ -287,10 +299,22 @@ static void walk(G& g, int nops, const Weights& w, bool allow_reinject) {
 
 // Every plan starts from the same library state whatever ran before it in the process: all eight dependencies
 // injected (generation 0) and no feature enabled. Explicit operations, so the replay file carries them too.
-static void reset_state(G& g) { g.inject(0, 7); g.enable(0, 0); }
+// A "fresh" plan is only ever executed as the first and only run of a new process: it does not reset anything, so that the
+// library's initial state is part of the history (no enabling call yet, enabling before the first injection, ...).
+static bool g_fresh = false;
+static void reset_state(G& g) { if (g_fresh) return; g.inject(0, 7); g.enable(0, 0); }
 static void prologue(G& g, int fill, int kdfm, int gen, unsigned opt, u64 mask) {
     reset_state(g);
     g.config(fill, kdfm);
+    if (g_fresh) {
+        switch (g.rng.below(4)) {
+        case 0: g.enable(0, mask); g.inject(gen, opt); break;                          // enabling before the first injection
+        case 1: g.inject(gen, opt); break;                                             // no enabling call at all: the default (none) is in force
+        case 2: g.enable(0, g.rng.below(8)); g.inject(gen, opt); g.enable(0, mask); break;
+        default: g.inject(gen, opt); g.enable(0, mask); break;
+        }
+        return;
+    }
     g.inject(gen, opt);
     g.enable(0, mask);
 }
@@ -310,8 +334,11 @@ static Plan make_concurrent(G& g, const char* prop) {
     g.plan.ntasks = g.ntasks = 2 + (int)g.rng.below(2);
     prologue(g, 1 + (int)g.rng.below(3), (int)g.rng.below(2), (int)g.rng.below(3), (unsigned)g.rng.below(8), 7);
     std::string p(prop);
+    // few distinct clock values, shared by the tasks: consecutive creates often fall into the same month, others do not
+    std::vector<u64> clocks; { int nc = 2 + (int)g.rng.below(2); for (int i = 0; i < nc; ++i) clocks.push_back(g.rng.chance(1, 2) ? EPOCH + g.rng.below(STEP * 1024) : g.clock_reading()); }
+    auto clk = [&]() { return clocks[g.rng.below(clocks.size())] + g.rng.below(1000); };
     for (int t = 0; t < g.ntasks; ++t) {
-        if (g.rng.chance(1, 2)) g.create(t, 0, g.rng.below(8), g.secret_kind(), {g.clock_reading()});
+        if (g.rng.chance(1, 2)) g.create(t, 0, g.rng.below(8), g.secret_kind(), {clk()});
         else g.load_seed(t, 0, g.fabricate((unsigned)g.rng.below(8) | (g.rng.chance(1, 4) ? 16 : 0), (int)g.rng.below(1024)));
     }
     int n = 2 + (int)g.rng.below(4);
@@ -321,6 +348,7 @@ static Plan make_concurrent(G& g, const char* prop) {
         int li = g.pick_lang(); unsigned coin = g.pick_coin();
         if (g.live(t, 1)) g.free_seed(t, 1);
         if (p == "C12" && g.rng.chance(1, 2)) { g.crypt(t, 0, g.password()); g.store(t, 0); g.emit(OP_ISENC, t, 0); continue; }
+        if (p == "C11" && g.rng.chance(2, 3)) { if (g.live(t, 2)) g.free_seed(t, 2); g.create(t, 2, g.rng.below(8), g.secret_kind(), {clk()}); if (g.live(t, 2)) g.emit(OP_GETB, t, 2); continue; }
         if (g.rng.chance(1, 2)) g.decode(t, 1, g.valid_phrase(sd, li, coin, (int)g.rng.below(64)), coin, g.rng.chance(1, 2) ? -1 : li);
         else g.load_seed(t, 1, sd);
         if (g.live(t, 1)) { g.emit(OP_GETB, t, 1); { Op& o = g.emit(OP_GETF, t, 1); o.a = 7; } g.emit(OP_ISENC, t, 1); g.store(t, 1); }
@@ -403,13 +431,22 @@ static Plan make_C04(u64 seed, int variant) {
         int nxt = (cur + 1) % 6;
         if (g.live(t, nxt)) g.free_seed(t, nxt);
         AbsSeed sd = g.seeds[{t, cur}];
-        switch (g.rng.below(5)) {
+        switch (g.rng.below(7)) {
         case 0: { int li = g.pick_lang(); unsigned coin = g.pick_coin(); g.encode(t, cur, li, coin); g.decode(t, nxt, g.valid_phrase(sd, li, coin, (int)g.rng.below(64)), coin, g.rng.chance(1, 2) ? -1 : li); break; }
         case 1: g.store(t, cur); g.load_seed(t, nxt, sd); break;
         case 2: { std::string pw = g.password(); g.crypt(t, cur, pw); kg(cur); g.crypt(t, cur, pw); nxt = cur; break; }
         case 3: { std::string pw = g.password(); g.crypt(t, cur, pw); nxt = cur; break; }
+        case 5: {   // a seed the library itself would not create (any of the 32 feature values); if the library accepts it, its key derivation is judged too
+            AbsSeed fs = g.fabricate((unsigned)g.rng.below(32));
+            if (g.rng.chance(1, 2)) g.load_seed(t, nxt, fs);
+            else { int li = g.pick_lang(); unsigned coin = g.pick_coin(); g.decode(t, nxt, g.valid_phrase(fs, li, coin, 0), coin, g.rng.chance(1, 2) ? -1 : li); }
+            g.keygen(t, nxt, g.pick_coin(), 32);
+            if (!g.live(t, nxt)) { Op& f = g.emit(OP_FREE, t, nxt); (void)f; }
+            break;
+        }
         default: g.create(t, nxt, g.rng.below(8), g.secret_kind(), {g.clock_reading()}); break;
         }
+        if (g.rng.chance(1, 5)) g.enable(t, g.rng.chance(1, 2) ? 7 : g.rng.below(8));      // the set of enabled features may change while seeds are alive
         if (g.live(t, nxt)) { if (nxt != cur && g.rng.chance(1, 2)) { kg(cur); g.free_seed(t, cur); } cur = nxt; }
         kg(cur);
     }
@@ -521,7 +558,7 @@ static Plan make_C12(u64 seed, int variant) {
             case 1: if (n2 >= 0) { g.load_seed(t, n2, sd); if (g.live(t, n2)) { if (g.rng.chance(1, 2)) { g.crypt(t, n2, use); g.store(t, n2); g.keygen(t, n2, g.pick_coin(), 32); } g.free_seed(t, n2); } } break;
             case 2: g.inject((int)g.rng.below(3), (unsigned)g.rng.below(8)); break;
             case 3: g.emit(OP_GETB, t, s); { Op& o = g.emit(OP_GETF, t, s); o.a = 7; } break;
-            case 4: g.enable(t, g.rng.chance(1, 2) ? 7 : (7 | (g.rng.next() << 3))); break;
+            case 4: g.enable(t, g.rng.chance(1, 3) ? 7 : ((g.rng.chance(1, 2) ? 7 : g.rng.below(8)) | (g.rng.next() << 3))); break;
             default: g.keygen(t, s, g.pick_coin(), 32); break;
             }
         }
@@ -594,7 +631,7 @@ static Plan make_C20(u64 seed, int variant) {
     G g(seed); g.plan.prop = "C20"; g.plan.mode = "preempt";
     choose_langs(g);
     (void)variant;
-    g.plan.ntasks = g.ntasks = 2 + (int)g.rng.below(3);
+    g.plan.ntasks = g.ntasks = g.rng.chance(1, 5) ? 5 + (int)g.rng.below(3) : 2 + (int)g.rng.below(3);      // a few runs with more threads than any small fixed pool
     prologue(g, (int)g.rng.below(4), (int)g.rng.below(2), (int)g.rng.below(3), (unsigned)g.rng.below(8), g.rng.below(8));
     // per task scripts: the walk alternates tasks, each touches only its own slots
     Weights w; w.enable = 0; w.inject = 0; w.langq = 1; w.create = 10; w.decode = 14; w.decodebad = 6; w.encode = 10; w.keygen = 8; w.crypt = 6; w.load = 6; w.store = 5; w.free_ = 6; w.fabricate = 4;
@@ -624,8 +661,9 @@ static Plan make_C20(u64 seed, int variant) {
     return g.plan;
 }
 
-Plan make(const std::string& prop, u64 seed, int variant) {
+Plan make(const std::string& prop, u64 seed, int variant, bool fresh) {
     Plan p;
+    g_fresh = fresh;
     if (prop == "C13") p = make_C13(seed, variant);
     else if (prop == "C04") p = make_C04(seed, variant);
     else if (prop == "C10") p = make_C10(seed, variant);
@@ -637,6 +675,7 @@ Plan make(const std::string& prop, u64 seed, int variant) {
     else if (prop == "C20") p = make_C20(seed, variant);
     else { fprintf(stderr, "polysim: no generator for %s\n", prop.c_str()); exit(3); }
     p.origin_seed = seed;
+    g_fresh = false;
     return p;
 }
 
